@@ -119,3 +119,14 @@ Definition run_entry_skeleton (sk : list neff) (eng : engine) (pr : bool) (m : m
 Inductive dispatch_decision := DTargetless | DNotFound | DInternal | DExternal (tgt : nat).
 Definition has_target (t : trans) : bool := match t_target t with TNone => false | _ => true end.
 Definition resolved_target (t : trans) : option nat := match t_target t with TState g => Some g | _ => None end.
+
+(* ---- _schedule_state_tasks: what is scheduled when a state is entered ---- *)
+Inductive seff := SAfterTimers | SServices.
+Definition run_seff (eng : engine) (m : machine) (x : nat) (e : seff) : M :=
+  match e with
+  | SAfterTimers => lift (fun s => fold_left (fun s' dt => fold_left (fun s'' t => arm x (s_now s'' + fst dt) (PAfter (t_event t)) s'') (snd dt) s')
+                                             (n_after (nd m x)) s)
+  | SServices => for_each (start_service eng x) (n_invoke (nd m x))
+  end.
+Definition run_schedule_skeleton (sk : list seff) (eng : engine) (m : machine) (x : nat) : M :=
+  lift (logo (OSched x)) ;; for_each (run_seff eng m x) sk.
